@@ -10,8 +10,11 @@ All theorems are about every `Reachable n nthreads stride s` (any `n`, any numbe
 
 * `ResizeBasic.lean`: `countP_set_add`, `countP_le_one_unique`; counters `P` (= `numParticipants`),
   `F` (finishers), `S` (threads at `pubStoreCtl`); `LocalOk` (thread-local facts, among them the
-  finisher-sweep invariant `MovedFrom`) and the inductive invariant `Inv`.
-* `ResizeInv.lean`: `Inv.init`, one `Inv.step_<pc>` per program counter (14), `Inv.step`,
+  finisher-sweep invariant `MovedFrom` and, for the threads on a join path, `JoinOk`: the word they
+  are going to CAS on is not younger than the table they hold, and a "finishing" word they carry
+  is not the current word) and the inductive invariant `Inv` (which contains `checkGen = true`,
+  `staleJoins = 0` and `heldGen ≤ gen` for every thread).
+* `ResizeInv.lean`: `Inv.init`, one `Inv.step_<pc>` per program counter (21), `Inv.step`,
   `Reachable.inv`.
 * `ResizeThms.lean` (targets 1–7):
   1. `count_invariant` (+ `count_invariant_gen`, `count_invariant_gen'`, `count_invariant_idle`)
@@ -23,11 +26,15 @@ All theorems are about every `Reachable n nthreads stride s` (any `n`, any numbe
   5. `single_publication`
   6. `no_overlap`, `resize_starts_from_idle`, `stamp_stable`
   7. `quiescent_after`
+  8. `no_stale_join` (`staleJoins = 0`), `join_ready_current`, `join_step_current`,
+     `join_path_word`, `held_le_gen`, `checkGen_true`, `maxResizers_eq`
 * `ResizeProgress.lean` (target 8): the measure `mu`, `mu_decreases` (every step of a thread inside
   the machinery, failed CASes included, strictly decreases `mu`), `progress_possible` (a finite run
-  of non-idle threads reaches `allIdle`).
-* `ResizeExamples.lean`: `decide`-checked runs (`single`, `two`, `staleIndex`) and
-  `stale_stamp_window`.
+  of non-idle threads reaches `allIdle`: first the threads on their way in – at an entry CAS or on
+  a join path, measured by `epot` – are run until they are in or back at `idle`, then `mu`).
+* `ResizeExamples.lean`: `decide`-checked runs (`single`, `two`, `staleIndex`, `staleJoin`) and
+  `stale_stamp_window`. `staleJoin` reaches `staleJoins = 1` from `init 2 2 1 false` (no generation
+  comparison in `help_transfer`) and `staleJoins = 0` from `init 2 2 1 true`.
 
 Deviation from the targets as literally stated: in the window between `pubSwapTable` and
 `pubStoreCtl` the word is `resizing (s.gen - 1) 1` (old stamp, new `gen`), so
